@@ -39,6 +39,9 @@ var vTextFams = []vTextFam{
 	21: {"2007T", " 7", "0 TZ-:"},                // what may follow a year-precision timestamp
 	22: {"1.", " 7", "05_dD-e"},                  // decimal fractions and exponents
 	23: {"(null", "int)", " ./*\n"},              // null followed by an operator in an s-expression
+	24: {"\"", "\" 7", "\x80\xc3\xa9\xe2\x82a\xf0"}, // UTF-8 well-formedness inside short strings
+	25: {"'", "' 7", "\x80\xc3\xa9\xe2\x82a"},       // ... inside quoted symbols
+	26: {"'''", "''' 7", "\x80\xc3\xa9a\xed\xa0"}, // ... inside long strings (incl. an encoded surrogate)
 }
 
 func vInAlpha(c byte, alpha string) bool {
